@@ -396,6 +396,9 @@ pub trait Fl: 'static + Sized {
     fn g_from_json(s: &str) -> Result<Self::Graph, String>;
     fn g_to_cbor(g: &Self::Graph) -> Result<Vec<u8>, String>;
     fn g_from_cbor(b: &[u8]) -> Result<Self::Graph, String>;
+    /// Drop the container on another thread where the flavour allows it
+    /// (sync flavours), otherwise here.
+    fn g_drop_elsewhere(g: Self::Graph);
 }
 
 // ---------------------------------------------------------------------------
@@ -767,8 +770,21 @@ macro_rules! edge_loop_impl {
     };
 }
 
+macro_rules! drop_elsewhere {
+    (true) => {
+        fn g_drop_elsewhere(g: Self::Graph) {
+            std::thread::spawn(move || drop(g)).join().expect("drop thread");
+        }
+    };
+    (false) => {
+        fn g_drop_elsewhere(g: Self::Graph) {
+            drop(g)
+        }
+    };
+}
+
 macro_rules! directed_flavor {
-    ($name:ident, $m:ident, $sync:expr, $with_cap:expr) => {
+    ($name:ident, $m:ident, $sync:tt, $with_cap:expr) => {
         pub struct $name;
         impl Fl for $name {
             const NAME: &'static str = stringify!($m);
@@ -838,12 +854,13 @@ macro_rules! directed_flavor {
             fn g_sizeof(g: &Self::Graph) -> Option<usize> {
                 Some(g.sizeof())
             }
+            drop_elsewhere!($sync);
         }
     };
 }
 
 macro_rules! undirected_flavor {
-    ($name:ident, $m:ident, $sync:expr, $dot_attr:expr, $gsizeof:expr) => {
+    ($name:ident, $m:ident, $sync:tt, $dot_attr:expr, $gsizeof:expr) => {
         pub struct $name;
         impl Fl for $name {
             const NAME: &'static str = stringify!($m);
@@ -915,6 +932,7 @@ macro_rules! undirected_flavor {
                 let f: &dyn Fn(&Self::Graph) -> Option<usize> = &$gsizeof;
                 f(g)
             }
+            drop_elsewhere!($sync);
         }
     };
 }
